@@ -51,20 +51,36 @@ def harness_hash():
     return _harness_hash
 
 
-def prune_cache(keep=3):
+def touch_tree_cache():
+    d = os.path.join(WORK, 'cache', tree_hash()[:16])
+    try:
+        os.makedirs(d, exist_ok=True)
+        os.utime(d, None)
+    except OSError:
+        pass
+
+
+def prune_cache(keep=3, min_age_s=3 * 3600):
+    """Drop binaries built from older states of /repo/include.  Never touches the current tree's directory, nor one
+    that was used in the last three hours (another check may be running against a different tree state)."""
     root = os.path.join(WORK, 'cache')
     if not os.path.isdir(root):
         return
     cur = tree_hash()[:16]
+    touch_tree_cache()
+    now = time.time()
     ents = []
     for d in os.listdir(root):
         p = os.path.join(root, d)
         if d == cur:
             continue
         try:
-            ents.append((os.path.getmtime(p), p))
+            m = os.path.getmtime(p)
         except OSError:
-            pass
+            continue
+        if now - m < min_age_s:
+            continue
+        ents.append((m, p))
     ents.sort(reverse=True)
     for _, p in ents[keep - 1:]:
         shutil.rmtree(p, ignore_errors=True)
@@ -236,6 +252,7 @@ def run(job, args, timeout=1800, env=None, tag='run'):
 
 
 def build_all(jobs, progress=None):
+    touch_tree_cache()
     with ThreadPoolExecutor(max_workers=JOBS) as ex:
         futs = [ex.submit(build, j) for j in jobs]
         for f in futs:
@@ -246,5 +263,6 @@ def build_all(jobs, progress=None):
 
 
 def parallel(fn, items, workers=None):
+    touch_tree_cache()
     with ThreadPoolExecutor(max_workers=workers or JOBS) as ex:
         return list(ex.map(fn, items))
